@@ -148,21 +148,47 @@ class Ctx:
             self.driver = out
         return out
 
-    def drive(self, cases, out, driver=None, timeout=3600, env=None):
+    def drive(self, cases, out, driver=None, timeout=3600, env=None, shards=1):
+        """Run the driver on the case file; shards > 1 splits the cases round-robin over parallel driver
+        processes (each crash-isolated as usual) and concatenates their logs."""
         driver = driver or self.driver or self.build_driver()
-        cmd = [driver, "-prop", self.prop, "-cases", cases, "-out", out, "-seed", str(self.seed), "-tier", self.tier]
-        t = time.time()
         e = self.goenv()
         e.update(env or {})
-        try:
-            p = subprocess.run(cmd, cwd=self.scratch, env=e, stdout=subprocess.PIPE, stderr=subprocess.PIPE,
-                               text=True, timeout=timeout)
-        except subprocess.TimeoutExpired:
-            raise Infra("driver timed out")
-        if p.returncode != 0:
-            raise Infra("driver failed (exit %d): %s" % (p.returncode, p.stderr[-3000:]))
+        t = time.time()
+        if shards <= 1:
+            parts = [(cases, out)]
+        else:
+            lines = [l for l in open(cases) if l.strip()]
+            shards = max(1, min(shards, len(lines) // 50 + 1))
+            parts = []
+            for k in range(shards):
+                cp, op = "%s.shard%d" % (cases, k), "%s.shard%d" % (out, k)
+                with open(cp, "w") as f:
+                    f.writelines(lines[k::shards])
+                parts.append((cp, op))
+
+        def one(part):
+            cp, op = part
+            cmd = [driver, "-prop", self.prop, "-cases", cp, "-out", op, "-seed", str(self.seed), "-tier", self.tier]
+            try:
+                p = subprocess.run(cmd, cwd=self.scratch, env=e, stdout=subprocess.PIPE, stderr=subprocess.PIPE,
+                                   text=True, timeout=timeout)
+            except subprocess.TimeoutExpired:
+                raise Infra("driver timed out")
+            if p.returncode != 0:
+                raise Infra("driver failed (exit %d): %s" % (p.returncode, p.stderr[-3000:]))
+            return p.stderr.strip().splitlines()[-1] if p.stderr.strip() else ""
+
+        with cf.ThreadPoolExecutor(max_workers=len(parts)) as ex:
+            tails = list(ex.map(one, parts))
+        if len(parts) > 1:
+            with open(out, "w") as f:
+                for _, op in parts:
+                    if os.path.exists(op):
+                        f.write(open(op).read())
         n = sum(1 for _ in open(out)) if os.path.exists(out) else 0
-        log("[drv] %s: %d log lines in %.1fs  %s" % (self.prop, n, time.time() - t, p.stderr.strip().splitlines()[-1] if p.stderr.strip() else ""))
+        log("[drv] %s: %d log lines in %.1fs (%d driver process%s)  %s" % (self.prop, n, time.time() - t, len(parts),
+                                                                          "es" if len(parts) > 1 else "", tails[0]))
         return n
 
     # ------------------------------------------------------------------ trace validation
